@@ -366,7 +366,7 @@ PROPS = {
         ],
         undecided_clauses=[
             'that every subscribed connection actually receives an emitted event; de-duplication inside '
-            'Service::subscribed_conn_ids (assumed accessor: HashSet extend over flatten); the client\'s BrokerSubscriptions::emit',
+            'Service::subscribed_conn_ids (assumed accessor: HashSet extend over flatten)',
             'client-side subscription bookkeeping (aldrin/src/client/*.rs) beyond unit client_broker_subscriptions',
         ],
         explanation='every subscribe/unsubscribe operation of Service returns true exactly when the subscriber set of '
